@@ -15,7 +15,8 @@ Print Assumptions C13hs13_server_starts_pre_cookie.
 
 (* for every datagram, of any content: in that phase the server stays in it and emits nothing but
    HelloRetryRequest records, or moves to Flight 4; and it emits something only if the datagram
-   carried handshake data that reached the reassembly buffer *)
+   carried handshake data that reached the reassembly buffer (NOT: only if it carried a ClientHello -
+   see C13hs13_hrr_only_for_client_hello_refuted below) *)
 Theorem C13hs13_only_hrr_before_cookie :
   forall (c : cfg) (e : ep) (d : dgram) (now : N),
     hrr_cfg c -> pre_cookie c e ->
@@ -58,6 +59,30 @@ Theorem C13hs13_hrr_discipline :
       e1 = fst (run c e ins1) /\ pre_cookie c e1 /\ e_flight (fst (step c e1 i)) = F4.
 Proof. exact hrr_discipline. Qed.
 Print Assumptions C13hs13_hrr_discipline.
+
+(* THE GAP (DTLS 1.3 analogue of known finding F17), as coded: once the HelloRetryRequest has been
+   sent, ONE unprotected handshake record of ANY type whose message_seq is below the reassembly
+   sequence counts as a retransmission by the peer and makes the server send the HelloRetryRequest
+   again, as soon as InitialRetransmitInterval/2 has passed since its last transmission ... *)
+Theorem C13hs13_stale_fragment_reanswers :
+  forall (c : cfg) (e : ep) (ht m fo fl tl sz now : N),
+    hrr_cfg c -> pre_cookie c e -> e_flight e = F2 ->
+    e_recvseq e <= e_fbcur e -> m < e_fbcur e -> has e (e_recvseq e) HT_CH 0 = false ->
+    c_initial c <= 2 * (now - e_lastsent e) ->
+    snd (on_datagram c e [{| r_ep := 0; r_body := Hs ht m fo fl tl; r_size := sz |}] now)
+    = pack c (fl_lookup F2 (c_fl c)).
+Proof. exact stale_fragment_reanswers. Qed.
+Print Assumptions C13hs13_stale_fragment_reanswers.
+
+(* ... hence "each HelloRetryRequest is sent only in direct response to a ClientHello" is refuted on
+   the faithful model: witness = the server after ClientHello1 of the current tree and a 1-byte
+   fragment of a Finished message with message_seq 0, 600 ms later (replayed on the implementation
+   by TestVerifHs13Cookie's injection scenarios) *)
+Theorem C13hs13_hrr_only_for_client_hello_refuted :
+  exists (e : ep) (d : dgram) (now : N),
+    pre_cookie stale_cfg e /\ carries_client_hello d = false /    snd (on_datagram stale_cfg e d now) = pack stale_cfg (fl_lookup F2 (c_fl stale_cfg)) /    snd (on_datagram stale_cfg e d now) <> [].
+Proof. exact hrr_only_for_client_hello_refuted. Qed.
+Print Assumptions C13hs13_hrr_only_for_client_hello_refuted.
 
 (* the premises hold for the regenerated flight structures of the current tree *)
 Theorem C13hs13_premises_v13 : hrr_cfg (cfg13 g13_v13).
